@@ -3,6 +3,10 @@
 # tools/seed_run.sh (scratch worktree; /repo untouched), in <shards> parallel shards (default 4), and writes
 # seeded/REGRESSION.txt. The check run is the first property named in the seed's detected_by list.
 cd /verif
+# every patched tree compiles the library afresh: keep those build artefacts in a scratch cache that is removed
+# at the end instead of letting them pile up in the default Go build cache (312 seeds ≈ 80 GB)
+export GOCACHE=/tmp/seedcache.$$
+trap 'rm -rf /tmp/seedcache.$$' EXIT
 n=${1:-4}
 ids=($(ls seeded | grep -v REGRESSION))
 tmp=$(mktemp -d)
